@@ -95,6 +95,13 @@ RE_META = re.compile(
     re.IGNORECASE
 )
 
+# the same element with its two attributes written the other way round
+RE_META_REVERSED = re.compile(
+    r'\s*<meta\s+content=["\']?([^;]+);\s*charset=([^"\']+)["\']?'
+    r'\s+http-equiv=["\']?Content-Type["\']?\s*/?\s*>\s*',
+    re.IGNORECASE
+)
+
 RE_ENCODING = re.compile(
     br'encoding\s*=\s*(?:"|\')(?P<encoding>[\w\-]+)(?:"|\')',
     re.IGNORECASE
@@ -140,7 +147,7 @@ def detect_encoding(
     if not isinstance(body, str):
         body = body.decode('ascii', 'ignore')
 
-    match = RE_META.search(body)
+    match = RE_META.search(body) or RE_META_REVERSED.search(body)
     if match is not None:
         # this can be treated like tuple[str, str] since we unpack it
         return match.groups()  # type: ignore[return-value]
